@@ -110,11 +110,15 @@ impl ConcurrencyStat for ResourceNode {
     }
 
     fn increase_concurrency(&self) {
+        #[cfg(flea1lt_sentinel_rust_verif)]
+        crate::verif::sched::point("rn:inc");
         self.arr
             .update_concurrency(self.concurrency.fetch_add(1, Ordering::SeqCst) + 1)
     }
 
     fn decrease_concurrency(&self) {
+        #[cfg(flea1lt_sentinel_rust_verif)]
+        crate::verif::sched::point("rn:dec");
         self.concurrency.fetch_sub(1, Ordering::SeqCst);
     }
 }
